@@ -24,7 +24,7 @@ CLAIMED = {
    text="Fault enumeration over stored documents: every truncation offset and a substitution alphabet at every offset for small bases (exhaustive per base), boundary-biased faults for large ones, adversarial nesting and dense structurals; each case must return (result xor error) without panic, without touching the guard pages around the input, without a stuck stage (sync-path full-channel monitor, pipeline schedules with deadlock/leak detection) and every traversal/lookup/marshal call on a result must terminate within its step cap.",
    note="Trusted: guard pages only catch page-crossing reads (inputs are placed flush against the guard); walkers' step caps define 'terminates'; crashes on library goroutines are caught by the parent process and replayed in a fresh child."),
  "C09": dict(engine="stream", cat="exploration", ref="§5.2, §6 C09",
-   technique="deterministic simulation: real ParseNDStream in a synctest bubble with a simulated reader (seeded fragmentation, zero reads, data+EOF, injected reader errors), seeded chunk-parser completion order, consumer and recycler; history oracles",
+   technique="deterministic simulation: real ParseNDStream in a synctest bubble with a simulated reader (seeded fragmentation, zero reads, data+EOF, injected reader errors), seeded chunk-parser completion order, consumer and recycler; history oracles; a quarter of the workers run the -race build with a pre-drawn read plan",
    text="Seeded exploration of reader fragmentations, reader faults at drawn byte offsets, chunk-parser completion orders, consumer speeds, channel capacities, recycling policies and GOMAXPROCS for the real ParseNDStream; the recorded history must be exactly the stream's documents then one io.EOF then close (no fault), or a prefix plus the reader's error before close (fault), with deadlock/livelock/leak detection.",
    note="Trusted: synctest quiescence; reference parser for 'the stream's documents'; the 10 MiB chunk size is shipped as is (streams > 10 MiB only in the thorough tier)."),
  "C10": dict(engine="hist", cat="exploration", ref="§5.3, §6 C10",
@@ -32,7 +32,7 @@ CLAIMED = {
    text="Seeded histories of in-place edits; after every operation the tape is marshalled from the root and from restricted inner iterators (NextElement, AdvanceIter, FindKey, Elements, Array) and the text must be valid JSON, denote the model document (order, byte-equal strings, numbers equal as the property defines) and be a fixed point of parse+marshal; non-finite floats must yield an error.",
    note="Documents holding a negative-zero float are excluded from the fixed-point clause only (C03+C18 force '-0' to re-parse as integer 0)."),
  "C11": dict(engine="hist", cat="exploration", ref="§5.3, §6 C11",
-   technique="deterministic simulation of Serializer histories (mode switches, reused serializers and destinations) against a reference model, plus cross-build recovery: blobs written by the asm build are deserialized by a noasm build in a fresh process",
+   technique="deterministic simulation of Serializer histories (mode switches, reused serializers and destinations, failed calls on damaged blobs) inside a synctest bubble where codec goroutines are scheduler tokens, against a reference model, plus cross-build recovery: blobs written by the asm build are deserialized by a noasm build in a fresh process",
    text="Seeded histories over 1-3 reused Serializers and reused destinations, all four modes on either side, fresh / NDJSON / edited / deleted-member tapes incl. overflow-flag floats and multi-generation round trips; every deserialized tape must expose the model document with exact number types and flags and obey the tape format; a sample of blobs is re-read by the noasm build.",
    note="String dedup depends on the process-random hash seed: blob bytes are never compared, only what they deserialize to."),
  "C13": dict(engine="hist", cat="exploration", ref="§5.3, §6 C13",
@@ -56,12 +56,12 @@ CLAIMED = {
    text="The tape-format invariant (root pairs, matching and nested scopes, string flag/offset/length in range, two-word numbers, no undocumented tags, NOP runs landing on the next live entry for deserialized tapes) is the only alarm-raising oracle of a mixed batch of the pipe, stream and history engines.",
    note="Coverage of input shapes is whatever the workloads generate; the invariant checker is written from README/property text."),
  "C19": dict(engine="fault", cat="fault_enumeration", ref="§5.4, §6 C19",
-   technique="deterministic fault injection on stored bytes: exhaustive truncations / single-bit flips / byte substitutions of small blobs in all four modes, framing-aware tag/value/varint/block-type edits via an independent framing walker (decompress-mutate-recompress), splices, random bytes, double faults",
+   technique="deterministic fault injection on stored bytes: exhaustive truncations / single-bit flips / byte substitutions of small blobs in all four modes, framing-aware tag/value/varint/block-type edits via an independent framing walker (decompress-mutate-recompress), synthetic tag streams, splices, random bytes, double faults; a call that does not return is judged as a bubble deadlock",
    text="Fault enumeration over serialized blobs: for every base blob one fault plan is run to completion (every truncation length, every single-bit flip, or a substitution alphabet at every offset for small blobs; framing-aware edits that keep the container intact; section splices of two blobs; random bytes; sampled double faults). Deserialize (fresh or stale reused destination, any reader mode) must return error or result without panic, and every traversal/marshal/lookup/bulk accessor on a result must terminate without panic.",
    note="Blobs whose declared sizes (container varints, zstd frame content/window size) exceed 16 MiB are excluded by the independent framing walker, as the property allows, and counted."),
 
  "C07": dict(engine="pipe", cat="exploration", ref="§5.1, §6 C07",
-   technique="deterministic simulation: seeded cooperative scheduling of the stage-1 producer and stage-2 consumer at hand-off hooks (testing/synctest quiescence), ring monitors + reference model",
+   technique="deterministic simulation: seeded cooperative scheduling of the stage-1 producer and stage-2 consumer at hand-off hooks (testing/synctest quiescence), ring monitors + reference model; a quarter of the workers run the -race build free-running at drawn GOMAXPROCS",
    text="Seeded exploration of producer/consumer interleavings of the real two-stage pipeline over its 16-slot ring and bounded channel: every execution is one seed; monitors state the property (no slot acquired while in flight or held, FIFO hand-off with stable content, one terminator sent last, termination, no goroutine left) and the outcome is compared with an independent reference parser and with a free-running execution. Sampling, not proof: it reaches the lagging-consumer/lagging-producer schedules the Go runtime almost never produces.",
    note="Trusted: testing/synctest quiescence detection (go1.26.8), the reference parser in /verif/sim (self-tested against encoding/json), hook placement (add-only, reviewed). Interleaving is controlled at hook granularity, not at instruction level."),
 }
